@@ -24,6 +24,9 @@ FOCUS = {
     # C23: many stored rows with links, then selects / navigation in later sessions (batch splitting, prefetch)
     'load': {'new': 10, 'add': 8, 'rel': 6, 'create_in': 3, 'r_select': 9, 'r_coll': 6, 'r_attr': 5, 'r_todict': 2,
              'commit': 2, 'del': 1, 'remove': 2},
+    # many linked rows first, then sessions that meet them partly loaded (see op_partial)
+    'partial': {'new': 10, 'add': 9, 'rel': 5, 'create_in': 3, 'partial': 12, 'seq_in': 3, 'r_coll': 3, 'commit': 1,
+                'del': 1, 'remove': 2, 'fail_probe': 2},
     'order': {'new': 10, 'rel': 6, 'del': 5, 'add': 3, 'create_in': 4, 'flush': 1, 'late_link': 6, 'oflush': 2},
 }
 
@@ -46,13 +49,20 @@ def gen_case(seed, i, tier, focus='default', loading=False, tag='seq'):
     for s in range(n_sess):
         ops = []
         n = r.randint(3, 14)
+        builders = None
+        if focus == 'partial' and s == 0:
+            # the first session only builds: many rows, many links, all stored when the later sessions start
+            n = r.randint(12, 20)
+            builders = [('new', 5), ('add', 5), ('rel', 2), ('create_in', 2)]
         for j in range(n):
             if s == 0 and j < 3:
                 op = 'new'
+            elif builders:
+                op = r.weighted(builders)
             else:
                 op = r.weighted(pairs)
             ops.append([op, r.below(1000), r.below(1000), r.below(1000)])
-        if s >= 1 and r.chance(0.35):
+        if s >= 1 and r.chance(0.9 if focus == 'partial' else 0.35):
             # a later session starts with a partly loaded collection and a pending change (see op_partial)
             ops.insert(0, ['partial', r.below(1000), r.below(1000), r.below(1000)])
         end = r.weighted([('exit', 7), ('raise', 1.5), ('rollback', 1.5)])
